@@ -51,6 +51,35 @@ def run(ctx):
                       signature="C02:write:bytes-are-not-the-spec-encoding" if not ok else "C02:model-differs",
                       found_input=not ok, detail="independent decoder + spec re-encoding: " + str(k)[:300])
 
+    # ---- corr:write-raw: the model parses the RAW schema itself (Parse.v + Bridge.v), so the meaning of the schema
+    # (which definition a name denotes, full names) does not come from fastavro's parse_schema
+    from .. import schemagen
+    raw_imports = CC.IMPORTS.replace("model.Harness.", "model.Harness model.Json model.HarnessRaw.")
+    rexprs, rcases = [], []
+    for c in cases[: (260 if ctx.quick() else 3000)]:
+        try:
+            jt = schemagen.to_coq(c.raw)
+        except Exception:
+            continue
+        rexprs.append("run_wr_raw %s %s %s %s %s" % (G.wopts(**c.wopts), G.ropts(**c.ropts), jt, G.py_to_coq(c.datum), G.hx(c.suffix)))
+        rcases.append(c)
+    rmodel = [G.canon_model_text(x) for x in core.coq_eval(rexprs, raw_imports, ctx.workdir, tag="c02raw", shard=150)]
+    for c, m in zip(rcases, rmodel):
+        saved = c.use_raw
+        c.use_raw = True
+        t, _ = CC.impl_wr_text(c)
+        c.use_raw = saved
+        ctx.count("corr:write-raw", (repr(c.raw), repr(c.datum)), nontrivial=CC.has_depth(c.datum))
+        if m in ("U", "PARSE", "BRIDGE"):
+            ctx.notes["raw_route_" + m] = ctx.notes.get("raw_route_" + m, 0) + 1
+            continue
+        if t != m:
+            # the model's parse is the specification's reading of the raw schema: when it encodes the datum, different
+            # bytes (or a raise) from the implementation are a counterexample
+            ctx.violation("corr:write-raw", c.to_json(), impl=t[:1500], model=m[:1500],
+                          signature="C02:write-raw:bytes-differ-from-spec-encoding-of-the-raw-schema", found_input=m.startswith("W:"),
+                          detail="model parsed the raw schema itself (Parse.v, Bridge.v)")
+
     # ---- corr:wire-leaf
     from fastavro.io.binary_encoder import BinaryEncoder
 
